@@ -85,6 +85,10 @@ def expected_onsets(o, tpb, total_ticks):
             started = (not q and not d) or s < a
             if started and onset >= a:
                 shift = x
+                if s + ceil((N + shift) / tick) < a:
+                    # a negative nudge that moves the next onset into the past: "shifted by exactly x" cannot be
+                    # met by any scheduler (the tick has gone); the property does not say what happens - not judged
+                    return None
                 onset = max(a, s + ceil((N + shift) / tick))
         if onset >= total_ticks:
             break
@@ -107,6 +111,8 @@ def oracle(sc, r):
             if c[0] == "on":
                 ons.append((t, c[1]))
     exp = expected_onsets(o, tpb, total)
+    if exp is None:
+        return None, "nudge into the past"
     expn = [(t, 40 + (k % len(o["durs"])) if sc["meta"]["kind"] == "basic" else 50 + (k % len(o["durs"]))) for t, k in exp]
     if ons != expn:
         for j, (a, b) in enumerate(zip(ons + [None] * len(expn), expn + [None] * len(ons))):
@@ -123,7 +129,7 @@ def strip(sc):
 
 def check(run):
     rng = run.rng
-    n = 300 if run.tier == "quick" else 3000
+    n = 1500 if run.tier == "quick" else 12000
     scs = [gen_basic(rng, run.tier) for _ in range(n)]
     longs = [(24, 1200000), (96, 1200000), (480, 1200000), (1920, 1200000)] if run.tier == "quick" else \
             [(t, 5000000) for t in (24, 48, 96, 100, 480, 960, 1000, 1920)]
@@ -140,7 +146,11 @@ def check(run):
             run.violation({"kind": "driver-error", "site": "Timeline"}, {"scenario": fsc, "observed": r}, found_input=True)
             bad_oracle.add(i); continue
         ok, detail = oracle(sc, r)
-        run.cov["oracle_evaluations"] += 1
+        if ok is None:
+            run.discard("oracle: " + detail)
+            ok = True
+        else:
+            run.cov["oracle_evaluations"] += 1
         n_on = sum(1 for _, calls, _, _ in r["obs"] for c in calls if c[0] == "on")
         if n_on >= 2:
             run.nontrivial(json.dumps(fsc, sort_keys=True))
